@@ -451,10 +451,20 @@ def run(tier="quick", seed=0):
     ctx = mp.get_context("fork")
     with ctx.Pool(procs) as pool:
         cli_async = pool.map_async(_cli_task, cli_cases, chunksize=1)
-        res = pool.map(_task, cases, chunksize=2)
+        # stop early once enough failing cases are known: a defect that makes every later call slower (state growing
+        # from call to call) must not turn the check into an endless run
+        res = []
+        n_bad = 0
+        for r_ in pool.imap_unordered(_task, cases, chunksize=2):
+            res.append(r_)
+            if r_[1]:
+                n_bad += 1
+                if n_bad >= 25:
+                    break
         # shipped model, in process
         sh_fails, sh_stats, sh_outs = check_file(SHIPPED, excuse_unmet_premise=True)
-        cli_res = cli_async.get()
+        cli_res = cli_async.get(timeout=900) if n_bad < 25 else []
+        pool.terminate()
     for lang, fut in cli_shipped.items():
         rc, so, se = fut.result()
         gen = "goofit" if lang == "cpp" else "goofitpy"
